@@ -1,8 +1,8 @@
 package main
 
 import (
-	"go/token"
 	"fmt"
+	"go/token"
 	"go/types"
 	"strings"
 
@@ -125,6 +125,9 @@ func (c *FnCtx) atLoopHead(p *Path, b *ssa.BasicBlock, li *loopInfoT) bool {
 			ec.old = &le.oldHeap
 		}
 		for i, cl := range lc.Invariant {
+			if cl.Seq && c.mode != "seq" { // a sequential-only invariant, like a `seq:` postcondition
+				continue
+			}
 			t, _ := c.evalClause(ec, cl, lname+" of "+fr.fn.Name())
 			c.oblige(p, kind, lname+"."+clauseLabel(cl, i, "inv"), t, cl.Src, lc.Props)
 		}
@@ -180,6 +183,9 @@ func (c *FnCtx) atLoopHead(p *Path, b *ssa.BasicBlock, li *loopInfoT) bool {
 		env := c.frameEnv(p, fr, b)
 		ec := &EvalCtx{c: c, p: p, env: env, heap: &p.heap, old: &le.oldHeap, pkg: pkg}
 		for _, cl := range lc.Invariant {
+			if cl.Seq && c.mode != "seq" {
+				continue
+			}
 			t, ok := c.evalClause(ec, cl, lname)
 			if ok {
 				p.assume(t)
